@@ -357,7 +357,7 @@ func (u *Unit) applyFn(env *Env, fn Term, sig *types.Signature, args []Value, at
 		u.D.Fun(name, rs, argSorts...)
 		v := u.define(env, "ap", App(name, rs, argTerms...))
 		if rs == SSlice {
-			env.assume(u.validSliceT(v))
+			u.assumeGround(env, u.validSliceT(v))
 		}
 		u.knownRefsOf(env, v)
 		vals = append(vals, Value{v, rt})
@@ -882,6 +882,10 @@ func (u *Unit) havocOneForCall(env *Env, name string, old Term) {
 	pf.done[name] = true
 	nh := u.D.Fresh("hc_"+name, old.Sort)
 	env.heaps[name] = nh
+	if name == mapLenName {
+		r := u.D.Bound("r", SRef)
+		env.assume(Forall([]Term{r}, le(IntLit(0), Select(nh, r)), []Term{Select(nh, r)}))
+	}
 	if pf.mods.all {
 		return
 	}
@@ -936,7 +940,7 @@ func (u *Unit) callInterfaceMethod(c *ast.CallExpr, se *ast.SelectorExpr, sel *t
 		u.D.Fun(name, rs, argSorts...)
 		v := u.define(env, "dyn", App(name, rs, argTerms...))
 		if rs == SSlice {
-			env.assume(u.validSliceT(v))
+			u.assumeGround(env, u.validSliceT(v))
 		}
 		u.knownRefsOf(env, v)
 		vals = append(vals, Value{v, rt})
